@@ -20,3 +20,5 @@ from . import checks_extra
 CHECKS["X01"] = checks_extra.check_scripts
 CHECKS["X02"] = checks_extra.check_scripts
 REPLAYERS = {}
+CHECKS["X10"] = checks_extra.check_refine
+CHECKS["X11"] = checks_extra.check_refine
